@@ -63,6 +63,8 @@ def probes(fd):
     add("yylineno", ["--yylineno"], "yylineno", lambda b: (okrun(b) and "line=3" in b.rout, b.rout), sect3='int main(void) { while (yylex()) ; printf("line=%d\\n", yylineno); return 0; }')
     add("debug", ["-d"], "debug", lambda b: (okrun(b) and "--accepting rule" in b.rerr, b.rerr[:100]))
     add("nodefault", ["-s"], "nodefault", lambda b: (b.frc == 0 and b.crc == 0 and b.rrc != 0 and "jammed" in b.rerr, b.rerr[:100]), rules=["a+   { hits++; }"], inp=b"aab")
+    add("nodefault_cxx", ["-s", "-+"], "nodefault c++", lambda b: (b.frc == 0 and b.crc == 0 and b.rrc != 0 and "jammed" in b.rerr, (b.cout + b.rerr)[:160]), cxx=True,
+        rules=["a+   { hits++; }"], inp=b"aab", sect3='int main() { yyFlexLexer l; while (l.yylex()) ; return 0; }')
     add("caseinsensitive", ["-i"], "case-insensitive", lambda b: (okrun(b) and "hits=2" in b.rout, b.rout))
     add("stdinit", ["--stdinit"], "stdinit", lambda b: (okrun(b) and "in=1" in b.rout, b.rout), sect3='int main(void) { printf("in=%d\\n", yyin == stdin); return 0; }')
     add("nounistd", ["--nounistd"], "nounistd", lambda b: (b.frc == 0 and "#include <unistd.h>" not in b.ctext, ""), run=False, link=False)
